@@ -21,13 +21,13 @@ ASSUMPTIONS = [
     "tolerated difference: an absent optional property may reappear as null / [] / {} or, when the schema declares a default, as that default; date-times are compared as instants (Z vs +00:00)",
     "models whose package does not import are C01's subject and only counted",
 ]
-BOUND = {"quick": "~400 models (47 field kinds) x <=16 documents", "thorough": "all kinds x all name styles singles + all kind pairs"}
+BOUND = {"quick": "~450 models (47 field kinds; 13 kinds also nested through a reference / array / map of a second model) x <=16 documents", "thorough": "all kinds x all name styles singles + all kind pairs + every kind nested through a reference / optional reference / array / map of a second model (required and optional inner field)"}
 CHUNK = 1
 PACK = 8
 
 
 def cases(tier, seed):
-    fs = fields.singles(tier) + fields.pairs(tier) + fields.collisions(tier)
+    fs = fields.singles(tier) + fields.pairs(tier) + fields.collisions(tier) + fields.nested(tier)
     return [{"models": fs[i:i + PACK]} for i in range(0, len(fs), PACK)]
 
 
@@ -63,6 +63,17 @@ def argn(name):
 
 def defaults_applied(model, doc):
     """an absent optional property that declares a default may come back as that default (not demanded either way)"""
+    if model.get("wrap"):
+        inner = {"fields": model["fields"]}
+        v = doc.get(fields.WRAP_PROP)
+        out = dict(doc)
+        if isinstance(v, list):
+            out[fields.WRAP_PROP] = [defaults_applied(inner, x) for x in v]
+        elif isinstance(v, dict) and model["wrap"] == "map":
+            out[fields.WRAP_PROP] = {k: defaults_applied(inner, x) for k, x in v.items()}
+        elif isinstance(v, dict):
+            out[fields.WRAP_PROP] = defaults_applied(inner, v)
+        return out
     out = dict(doc)
     alts = [out]
     d2 = dict(doc)
@@ -110,7 +121,7 @@ def run_case(case):
         if rec.get("missing"):
             add("model-missing", "no class exported for the schema", "models.%s" % rec["class"])
             continue
-        names = [f["name"] for f in m["fields"]]
+        names = fields.root_names(m) + (["tag"] if m.get("wrap") else [])
         load, dump = rec.get("meta_load", {}), rec.get("meta_dump", {})
         if sorted(load) != sorted(names):
             add("wire-keys", "Meta.key_transform_with_load keys are not exactly the spec's property names", f"{sorted(load)} vs {sorted(names)}")
@@ -132,6 +143,8 @@ def run_case(case):
                     present = byname[mm.group(1)]
                 elif mt:
                     present = "type " + mt.group(1)
+            if m.get("wrap"):
+                present = m["fields"][0]["kind"] + "@nested"
             dj = json.dumps(doc, sort_keys=True)[:150]
             if "structure_error" in d:
                 add("structure", f"conforming document rejected [{present}]: {exc_disc(d['structure_error'])}", f"doc {dj}: {d['structure_error']['msg'][:150]}", dj)
@@ -144,6 +157,8 @@ def run_case(case):
             if not json_equiv(back, want) and not json_equiv(back, norm(defaults_applied(m, doc))):
                 bad = sorted(k for k in set(back) | set(want) if not json_equiv({k: back.get(k)}, {k: want.get(k)})) if isinstance(back, dict) else ["<root>"]
                 badkinds = "+".join(sorted({f["kind"] for f in m["fields"] if f["name"] in bad})) or "key-set"
+                if m.get("wrap"):
+                    badkinds = m["fields"][0]["kind"] + "@nested"
                 add("roundtrip", f"round-trip changes the document [{badkinds}]", f"doc {dj} came back as {json.dumps(back, sort_keys=True)[:200]}", dj)
     return {"findings": found, "evals": n, "nontrivial": nontriv, "nontrivial_multi": True,
             "outcome": "+".join(sorted(outcomes)) + (":finding" if found else ""),
